@@ -391,7 +391,7 @@ func c17Gen(c *Ctx) {
 
 func init() {
 	register("C17", &PropDef{
-		Rule: "GUIDs: boundary patterns (each field 0/1/all-ones/single bits, a zero nibble at every text position) then random 128-bit values; strings: edge code points, BOM, transformer-buffer-straddling lengths, then random NUL-free scalar sequences; arbitrary texts and byte strings for the decoders. A case is non-trivial if it is not the all-zero GUID / the empty string; distinct = distinct case encodings.",
+		Rule:   "GUIDs: boundary patterns (each field 0/1/all-ones/single bits, a zero nibble at every text position) then random 128-bit values; strings: edge code points, BOM, transformer-buffer-straddling lengths, then random NUL-free scalar sequences; arbitrary texts and byte strings for the decoders. A case is non-trivial if it is not the all-zero GUID / the empty string; distinct = distinct case encodings.",
 		Assume: []string{"Go strings handed to MarshalUtf16Var are valid UTF-8 (the property quantifies over valid Unicode strings)"},
 		Eval:   c17Eval,
 		Gen:    c17Gen,
